@@ -272,9 +272,9 @@ func (g *DocGen) val(t *Ty, depth int) string {
 		if depth <= 1 && t.E.K == 'r' && g.r.P(1, 80) {
 			n = 64 + g.r.Intn(40)
 		}
-		if depth <= 1 && t.E.K == 'n' && g.r.P(1, 400) {
-			n = 4096 + g.r.Intn(2000) // beyond "large input" thresholds of parallel or chunked code paths
-		}
+		// (arrays of thousands of elements only occur in the "big data" samples,
+		// whose expressions are linear: a generated expression may well be
+		// quadratic, and cost is not what is being checked)
 		bad := -1
 		if g.big && g.latePoison && depth <= 1 && n > 60 && g.r.P(1, 2) {
 			bad = n - 1 - g.r.Intn(5)
